@@ -11,7 +11,7 @@ using namespace sys;
 namespace c18 {
 
 struct Case {
-    int kind;      // 0 opcode sweep, 1 control flow, 2 mmio write + run, 3 dma/ahbm, 4 opcode x shift-amount register
+    int kind;      // 0 opcode sweep, 1 control flow, 2 mmio write + run, 3 dma/ahbm, 4 opcode x shift-amount register, 5 ar/arp word write + opcode
     u32 a, b, c, d; // parameters
 };
 inline std::string Ser(const Case& k) {
@@ -141,6 +141,21 @@ struct Runner {
                 m.teakra->Run(1);
             }, why);
         }
+        case 5: { // mov ##b, ar/arp word (c) ; then opcode (a): reserved bits of the addressing words set, then every instruction that may use them
+            site = "opcode:" + OpName((u16)k.a);
+            return Guard([&]() {
+                Fresh();
+                m.regs() = states[0];
+                for (int i = 0; i < 8; ++i)
+                    m.regs().r[i] = (u16)(0x0100 + 0x20 * i);
+                m.regs().pc = 0x1000;
+                m.SetProg(0x1000, (u16)(0x0008 | (k.c & 7)));
+                m.SetProg(0x1001, (u16)k.b);
+                m.SetProg(0x1002, (u16)k.a);
+                m.SetProg(0x1003, 0x0000);
+                m.teakra->Run(3);
+            }, why);
+        }
         case 1: { // control-flow instruction form (a) to target class (b), then 4 more cycles
             static const u32 targets[] = {0x00000, 0x00001, 0x3FFFE, 0x3FFFF, 0x20000};
             u32 t = targets[k.b % 5];
@@ -245,6 +260,11 @@ inline std::vector<Case> Cases(bool full_dma) {
                     continue; // the full mode x sign product at +-40, one representative elsewhere
                 v.push_back({4, op, sv, c, 0});
             }
+    // (a3) the six ar/arp words written with every bit set (reserved ones included), then every opcode
+    for (u32 op = 0; op < 0x10000; ++op)
+        for (u32 w = 0; w < 6; ++w)
+            for (u32 val : {0xFFFFu, 0x8421u})
+                v.push_back({5, op, val, w, 0});
     // (b) control flow to the edges
     for (u32 form = 0; form < 10; ++form)
         for (u32 t = 0; t < 5; ++t)
@@ -473,11 +493,11 @@ int main(int argc, char** argv) {
     res.rule = "every case of four families is executed on the real machine built with AddressSanitizer + UBSan + libstdc++ assertions, with the memory "
                "observer rejecting any DSP-memory word address >= 0x40000 before the access; (a) all 65536 opcodes x second words x 4 reachable register states x "
                "pc at 0x1000 / 0x3FFFE / 0x3FFFF / with prpage=1, 3 cycles each; all 65536 opcodes x 15 boundary values of the shift-amount register (+-39..41, +-63..65, "
-               "+-32, 0x7FFF..0x8001) with both shift modes and accumulator signs at +-40; (b) 10 control-flow forms x 5 edge targets x 4 states, 5 cycles; (c) every one of "
+               "+-32, 0x7FFF..0x8001) with both shift modes and accumulator signs at +-40; all 65536 opcodes after each of the six ar/arp words has been written with 0xFFFF / 0x8421 (reserved bits set); (b) 10 control-flow forms x 5 edge targets x 4 states, 5 cycles; (c) every one of "
                "the 2048 MMIO offsets x 22 values x both paths, all DMA registers read back, 4 cycles; (d) DMA/AHBM configurations with extreme register values, "
                "address high words {0,1,2,FFFF}^2, spaces, modes, AHBM unit/burst, then a start; acceptable outcomes: return, UnimplementedException, deliberate "
                "assertion; distinct = acceptable outcome classes + violation classes";
-    res.bound = "full products: 65536 opcodes x 3 second words x 4 states x 4 pc classes; 65536 opcodes x 21 shift-amount cases; 200 control-flow cases; 2048 offsets x 22 values x 2 paths; 16 registers x 5 values x 16 high-word pairs x " + std::string(th ? "1024" : "a fixed quarter of 64") + " mode combinations";
+    res.bound = "full products: 65536 opcodes x 3 second words x 4 states x 4 pc classes; 65536 opcodes x 21 shift-amount cases; 65536 opcodes x 6 ar/arp words x 2 values; 200 control-flow cases; 2048 offsets x 22 values x 2 paths; 16 registers x 5 values x 16 high-word pairs x " + std::string(th ? "1024" : "a fixed quarter of 64") + " mode combinations";
     res.assumptions = {"register states are reachable ones (loop depth <= 4 with consistent flags); arbitrary host-forged states are outside the property",
                        "uninitialised reads are not in ASan's scope; C17's heap-fill comparison covers constructor-uninitialised members"};
     res.AddSample("c18 0 23984 0 0 5 : opcode 5DB0 (mov #0,prpage...) family at pc 0x1000 with prpage=1");
